@@ -1,0 +1,56 @@
+//go:build verif
+
+// Contracts for the verifier in /verif (comment-only; compiled only with -tags verif).
+// fr / tagged are the framing macros of /verif/prelude/macros.spec.
+
+package schnorr
+
+// Fiat-Shamir challenge of the Schnorr proof: H_tag(Session; X, g, alpha) mod q
+//@ define chalZK(Session, c, Xx, Xy, Ax, Ay) = tagged(Session, fr(fr(fr(fr(fr(fr(le64(6), Xx), Xy), curveGx(c)), curveGy(c)), Ax), Ay)) % curveN(c)
+// and of the Schnorr-V proof: H_tag(Session; V, R, g, alpha) mod q
+//@ define chalZKV(Session, c, Vx, Vy, Rx, Ry, Ax, Ay) = tagged(Session, fr(fr(fr(fr(fr(fr(fr(fr(le64(8), Vx), Vy), Rx), Ry), curveGx(c)), curveGy(c)), Ax), Ay)) % curveN(c)
+
+//@ func (*ZKProof).ValidateBasic
+//@   props C06
+//@   requires pf != nil
+//@   ensures result <==> (pf.T != nil && pf.Alpha != nil)
+
+//@ func (*ZKVProof).ValidateBasic
+//@   props C06
+//@   requires pf != nil && (pf.Alpha != nil ==> pf.Alpha.curve != nil)
+//@   ensures result <==> (pf.T != nil && pf.U != nil && validPoint(pf.Alpha))
+
+//@ func NewZKProof
+//@   props C06 C10 C12
+//@   requires rand != nil && (X != nil ==> (X.curve != nil && okCurve(X.curve)))
+//@   requires len(Session) <= 1048576
+//@   ensures result1 != nil ==> result0 == nil
+//@   ensures result1 == nil ==> (x != nil && validPoint(X) && result0 != nil && fresh(result0) && validPoint(result0.Alpha) && result0.T != nil)
+//@   ensures [C10.prover-formulas] result1 == nil ==> exists a :: (0 < a && a < curveN(X.curve) && px(result0.Alpha) == ecbasex(X.curve, a) && py(result0.Alpha) == ecbasey(X.curve, a) && val(result0.T) == (a + chalZK(Session, X.curve, px(X), py(X), px(result0.Alpha), py(result0.Alpha)) * old(val(x))) % curveN(X.curve))
+
+//@ func (*ZKProof).Verify
+//@   props C06 C11 C12 C05
+//@   requires validPoint(X) && okCurve(X.curve) && len(Session) <= 1048576
+//@   requires pf != nil ==> ((pf.Alpha != nil ==> validPoint(pf.Alpha)) && (pf.T != nil ==> val(pf.T) >= 0))
+//@   ensures result ==> (pf != nil && pf.T != nil && pf.Alpha != nil)
+//@   ensures [C11.nonzero-response] result && issecp(X.curve) ==> val(pf.T) % curveN(X.curve) != 0
+//@   ensures [C12.equation-with-recomputed-challenge] result ==> (ecbasex(X.curve, val(pf.T)) == ecaddx(pf.Alpha.curve, px(pf.Alpha), py(pf.Alpha), ecmulx(X.curve, px(X), py(X), chalZK(Session, X.curve, px(X), py(X), px(pf.Alpha), py(pf.Alpha))), ecmuly(X.curve, px(X), py(X), chalZK(Session, X.curve, px(X), py(X), px(pf.Alpha), py(pf.Alpha)))))
+//@   ensures [C12.equation-y] result ==> (ecbasey(X.curve, val(pf.T)) == ecaddy(pf.Alpha.curve, px(pf.Alpha), py(pf.Alpha), ecmulx(X.curve, px(X), py(X), chalZK(Session, X.curve, px(X), py(X), px(pf.Alpha), py(pf.Alpha))), ecmuly(X.curve, px(X), py(X), chalZK(Session, X.curve, px(X), py(X), px(pf.Alpha), py(pf.Alpha)))))
+
+//@ func NewZKVProof
+//@   props C06 C10 C12
+//@   requires rand != nil && (V != nil ==> (V.curve != nil && okCurve(V.curve))) && (R != nil ==> R.curve != nil)
+//@   requires len(Session) <= 1048576
+//@   requires [same-curve] (V != nil && R != nil) ==> R.curve == V.curve
+//@   ensures result1 != nil ==> result0 == nil
+//@   ensures result1 == nil ==> (s != nil && l != nil && validPoint(V) && validPoint(R) && result0 != nil && fresh(result0) && result0.T != nil && result0.U != nil && validPoint(result0.Alpha))
+//@   ensures [C10.prover-formulas] result1 == nil ==> exists a, b :: (0 < a && a < curveN(V.curve) && 0 < b && b < curveN(V.curve) && px(result0.Alpha) == ecaddx(V.curve, ecmulx(V.curve, old(px(R)), old(py(R)), a), ecmuly(V.curve, old(px(R)), old(py(R)), a), ecbasex(V.curve, b), ecbasey(V.curve, b)) && py(result0.Alpha) == ecaddy(V.curve, ecmulx(V.curve, old(px(R)), old(py(R)), a), ecmuly(V.curve, old(px(R)), old(py(R)), a), ecbasex(V.curve, b), ecbasey(V.curve, b)) && val(result0.T) == (a + chalZKV(Session, V.curve, old(px(V)), old(py(V)), old(px(R)), old(py(R)), px(result0.Alpha), py(result0.Alpha)) * old(val(s))) % curveN(V.curve) && val(result0.U) == (b + chalZKV(Session, V.curve, old(px(V)), old(py(V)), old(px(R)), old(py(R)), px(result0.Alpha), py(result0.Alpha)) * old(val(l))) % curveN(V.curve))
+
+//@ func (*ZKVProof).Verify
+//@   props C06 C11 C12 C05
+//@   requires validPoint(V) && okCurve(V.curve) && validPoint(R) && R.curve == V.curve && len(Session) <= 1048576
+//@   requires pf != nil ==> ((pf.Alpha != nil ==> (pf.Alpha.curve != nil && wfPoint(pf.Alpha))) && (pf.T != nil ==> val(pf.T) >= 0) && (pf.U != nil ==> val(pf.U) >= 0))
+//@   ensures result ==> (pf != nil && pf.T != nil && pf.U != nil && validPoint(pf.Alpha))
+//@   ensures [C11.nonzero-responses] result && issecp(V.curve) ==> (val(pf.T) % curveN(V.curve) != 0 && val(pf.U) % curveN(V.curve) != 0)
+//@   ensures [C12.equation-with-recomputed-challenge] result ==> (ecaddx(V.curve, ecmulx(V.curve, px(R), py(R), val(pf.T)), ecmuly(V.curve, px(R), py(R), val(pf.T)), ecbasex(V.curve, val(pf.U)), ecbasey(V.curve, val(pf.U))) == ecaddx(pf.Alpha.curve, px(pf.Alpha), py(pf.Alpha), ecmulx(V.curve, px(V), py(V), chalZKV(Session, V.curve, px(V), py(V), px(R), py(R), px(pf.Alpha), py(pf.Alpha))), ecmuly(V.curve, px(V), py(V), chalZKV(Session, V.curve, px(V), py(V), px(R), py(R), px(pf.Alpha), py(pf.Alpha)))))
+//@   ensures [C12.equation-y] result ==> (ecaddy(V.curve, ecmulx(V.curve, px(R), py(R), val(pf.T)), ecmuly(V.curve, px(R), py(R), val(pf.T)), ecbasex(V.curve, val(pf.U)), ecbasey(V.curve, val(pf.U))) == ecaddy(pf.Alpha.curve, px(pf.Alpha), py(pf.Alpha), ecmulx(V.curve, px(V), py(V), chalZKV(Session, V.curve, px(V), py(V), px(R), py(R), px(pf.Alpha), py(pf.Alpha))), ecmuly(V.curve, px(V), py(V), chalZKV(Session, V.curve, px(V), py(V), px(R), py(R), px(pf.Alpha), py(pf.Alpha)))))
